@@ -36,3 +36,11 @@ for v in res.values():
             m = re.search(r"\[(C\d+\.R\w+)\] (\S+) \[([^\]]*)\]", l)
             if m: keys.setdefault((m.group(1), m.group(3).split(":")[0]), 0); keys[(m.group(1), m.group(3).split(":")[0])] += 1
 for k, n_ in sorted(keys.items()): print("  FA", k, n_)
+
+# human-readable summary kept in /verif (the patches themselves are scratch material and are not kept)
+lines = ["# Behaviour-preserving refactorings vs. the checks", "", f"Base: /repo fixes head {B[:8]}. {n} refactorings written by independent sub-agents (4 per property, pinned suite unchanged for each):",
+         f"**{clean} clean, {fa} with a false VIOLATION, {ae} with ANALYSIS-ERROR only** (exit 2 = the rule could not recognise the refactored shape and says so).", "",
+         "| refactoring | non-zero checks (1 = VIOLATION, 2 = ANALYSIS-ERROR) |", "|---|---|"]
+for name, v in sorted(res.items()):
+    lines.append(f"| {name} | {v.get('rc') if v.get('applies') else 'patch does not apply'} |")
+open("/verif/BENIGN.md", "w").write("\n".join(lines) + "\n")
